@@ -162,6 +162,38 @@ theorem pushElems_not_plain (ext : Ext) (large : Bool) : ∀ (xs : SVals) (el : 
       · exact push_never_plain ext x el msg h
       · exact pushElems_not_plain ext large rest el' _ (l + (1 : Nat)) msg (by simp) (by omega) (by omega) h
 
+/-- the only plain error of the element loop of a list builder is the overflow of the counter the list owns -/
+theorem pushElems_plain (ext : Ext) (large : Bool) : ∀ (xs : SVals) (el : B) (offs : List Int) (l : Int) (msg : String),
+    offs.getLast? = some l → 0 ≤ l → pushElems ext large el offs xs = .error (.err msg) →
+    msg = "offset overflow" ∧ l + xs.length > offMax large
+  | .nil, el, offs, l, msg, _, _, h => by simp [pushElems] at h
+  | .cons x rest, el, offs, l, msg, hl, h0, h => by
+    simp only [pushElems] at h
+    simp only [SVals.length]
+    by_cases hov : l + ((1 : Nat) : Int) > offMax large
+    · have hinc : incrementLast true large offs 1 = .error (.err "offset overflow") := by
+        unfold incrementLast
+        simp only [hl]
+        have h1 : ¬ (((1 : Nat) : Int) > offMax large) := by cases large <;> simp [offMax]
+        rw [if_neg h1, if_pos hov]; rfl
+      rw [hinc] at h
+      simp only [bind, Except.bind] at h
+      cases h
+      exact ⟨rfl, by omega⟩
+    · have hinc : incrementLast true large offs 1 = .ok (offs.dropLast ++ [l + ((1 : Nat) : Int)]) := by
+        unfold incrementLast
+        simp only [hl]
+        have h1 : ¬ (((1 : Nat) : Int) > offMax large) := by cases large <;> simp [offMax]
+        rw [if_neg h1, if_neg hov]
+      rw [hinc] at h
+      rcases bind_err_plain h with h | ⟨o, ho, h⟩
+      · cases h
+      · cases ho
+        rcases bind_err_plain h with h | ⟨el', _, h⟩
+        · exact absurd h (push_never_plain ext x el msg)
+        · obtain ⟨hm, hgt⟩ := pushElems_plain ext large rest el' _ (l + ((1 : Nat) : Int)) msg (by simp) (by omega) h
+          exact ⟨hm, by omega⟩
+
 theorem mem_ite_inner {path : String} {inner : List String} : ∀ q ∈ inner, q ∈ (if inner.isEmpty then [path] else inner) := by
   intro q hq
   cases inner with
